@@ -100,6 +100,11 @@ namespace pika::threads::detail {
         bool store_state(thread_state& newstate)
         {
             disable_restore();
+#if defined(PIKA_VERIF)
+            PIKA_VERIF_POINT(206, get_thread_id_data(thread_),
+                static_cast<std::uint64_t>(prev_state_.verif_raw()),
+                static_cast<std::uint64_t>(orig_state_.verif_raw()));
+#endif
 
             if (get_thread_id_data(thread_)->restore_state(prev_state_, orig_state_))
             {
@@ -380,7 +385,16 @@ namespace pika::threads::detail {
 #  endif
 # endif
 
+#if defined(PIKA_VERIF)
+                                PIKA_VERIF_POINT(110, thrdptr, num_thread,
+                                    static_cast<std::uint64_t>(
+                                        thrdptr->get_state(std::memory_order_relaxed).verif_raw()));
+#endif
                                 thrd_stat = (*thrdptr)(context_storage);
+#if defined(PIKA_VERIF)
+                                PIKA_VERIF_POINT(111, thrdptr, num_thread,
+                                    static_cast<std::uint64_t>(thrd_stat.get_previous()));
+#endif
 #endif
                             }
 
